@@ -47,10 +47,19 @@ def fcnt(c):
 # ---- printer ---------------------------------------------------------------------------------------
 
 class Pr:
-    def __init__(self, style, rng=None):
+    def __init__(self, style, rng=None, table=None):
         self.style = style
         self.rng = rng
         self.depth = 0
+        # delimiter assignment of Spec/MacroPrint.Delims (style 'f' only): {np: [delimiter string after parameter 1, .., np]}
+        self.table = table
+
+    def dl(self, np, i):
+        """delimiter string after parameter i (1-based) of a \\def macro with np parameters ('' = undelimited)"""
+        if not self.table:
+            return ''
+        row = self.table.get(np)
+        return row[i - 1] if row and i <= len(row) else ''
 
     def mac(self, n):
         return fmac(n) if self.style == 'f' else ML.mac(n)
@@ -109,6 +118,9 @@ class Pr:
                 self.depth -= 1
                 return s + '{' + b + '}'
             delims = how.get('delims') or [''] * (np + 1)
+            if self.table is not None:
+                # MacroPrint.print_node: delimiters by parameter count in program text; none in body mode (param_text2)
+                delims = [''] + [self.dl(np, i + 1) if self.depth == 0 else '' for i in range(np)]
             hashes = '#' * (2 ** self.depth)
             pat = delims[0] + ''.join('%s%d%s' % (hashes, i + 1, delims[i + 1]) for i in range(np))
             self.depth += 1
@@ -120,6 +132,16 @@ class Pr:
             how = how or {}
             delims = how.get('delims')
             s = '\\' + self.mac(name)
+            if self.table is not None:
+                # MacroPrint.print_dargs: by the number of arguments, whatever the macro is
+                if opt is not None:
+                    s += '[' + self.nodes(opt) + ']'
+                elif not args or self.dl(len(args), 1):
+                    s += ' '
+                for i, a in enumerate(args):
+                    d = self.dl(len(args), i + 1)
+                    s += ('{' + self.nodes(a) + '}') if d == '' else (self.nodes(a) + d)
+                return s
             if opt is not None:
                 return s + '[' + self.nodes(opt) + ']' + ''.join('{' + self.nodes(a) + '}' for a in args)
             if delims and any(delims):
@@ -164,8 +186,8 @@ class Pr:
         raise ValueError(n)
 
 
-def to_source(prog, style):
-    return Pr(style).nodes(prog)
+def to_source(prog, style, table=None):
+    return Pr(style, table=table).nodes(prog)
 
 
 # ---- structured generator --------------------------------------------------------------------------
@@ -481,6 +503,27 @@ def _opt_ok(o):
     return o is None or _words(o)
 
 
+TABLE = [None]      # the delimiter assignment the twins below are evaluated under (None: MacroPrint.NoDelims)
+
+
+def _dl(np, i):
+    t = TABLE[0]
+    if not t:
+        return ''
+    row = t.get(np)
+    return row[i - 1] if row and i <= len(row) else ''
+
+
+def _undelim(np):
+    """Spec/MacroPrint.undelim"""
+    return all(_dl(np, i) == '' for i in range(1, np + 1))
+
+
+def _dargs_ok(args):
+    """Spec/MacroPrint.dargs_ok: the argument of a delimited parameter is plain words"""
+    return all(_dl(len(args), i + 1) == '' or _words(a) for i, a in enumerate(args))
+
+
 def _fa(n):
     """Spec/MacroPrint.fa_node: argument text"""
     k = n[0]
@@ -491,7 +534,7 @@ def _fa(n):
     if k == 'def':
         return n[3] == 0 and n[4] is None and all(_fa(x) for x in n[5])
     if k == 'call':
-        return _opt_ok(n[2]) and all(all(_fa(x) for x in a) for a in n[3])
+        return _undelim(len(n[3])) and _opt_ok(n[2]) and all(all(_fa(x) for x in a) for a in n[3])
     if k == 'cond':
         return _test_ok(n[1]) and all(_fa(x) for x in n[2]) and (n[3] is None or all(_fa(x) for x in n[3]))
     if k == 'case':
@@ -514,7 +557,7 @@ def _fb(np, n, d):
     if k == 'def':
         return n[3] == 0 and n[4] is None and d > 0 and all(_fb(np, x, d - 1) for x in n[5])
     if k == 'call':
-        return _opt_ok(n[2]) and all(d > 0 and all(_fb(np, x, d - 1) for x in a) for a in n[3])
+        return _undelim(len(n[3])) and _opt_ok(n[2]) and all(d > 0 and all(_fb(np, x, d - 1) for x in a) for a in n[3])
     if k == 'cond':
         return _test_ok(n[1]) and d > 0 and all(_fb(np, x, d - 1) for x in n[2]) and (n[3] is None or all(_fb(np, x, d - 1) for x in n[3]))
     if k == 'case':
@@ -534,7 +577,7 @@ def _fi(np, m, n, d):
     if k == 'group':
         return d > 0 and all(_fi(np, m, x, d - 1) for x in n[1])
     if k == 'call':
-        return _opt_ok(n[2]) and all(d > 0 and all(_fi(np, m, x, d - 1) for x in a) for a in n[3])
+        return _undelim(len(n[3])) and _opt_ok(n[2]) and all(d > 0 and all(_fi(np, m, x, d - 1) for x in a) for a in n[3])
     if k == 'cond':
         return _test_ok(n[1]) and d > 0 and all(_fi(np, m, x, d - 1) for x in n[2]) and (n[3] is None or all(_fi(np, m, x, d - 1) for x in n[3]))
     if k == 'case':
@@ -551,7 +594,7 @@ def _fb3(np, n, d):
     if k == 'group':
         return d > 0 and all(_fb3(np, x, d - 1) for x in n[1])
     if k == 'def':
-        if not (np >= 1 and d > 0):
+        if not (np >= 1 and d > 0 and _undelim(n[3])):
             return False
         if n[4] is None:
             return 1 <= n[3] <= 9 and all(_fi(np, n[3], x, d - 1) for x in n[5])
@@ -568,7 +611,7 @@ def _fv(n):
     if n[0] == 'word':
         return True
     if n[0] == 'def' and n[4] is None:
-        return 1 <= n[3] <= 9 and all(_fi(0, n[3], x, 49) for x in n[5])
+        return _undelim(n[3]) and 1 <= n[3] <= 9 and all(_fi(0, n[3], x, 49) for x in n[5])
     return False
 
 
@@ -580,11 +623,11 @@ def _f2(n):
         return all(_f2(x) for x in n[1])
     if k == 'def':
         if n[4] is not None:
-            return bool(n[1]) and n[3] + 1 <= 9 and _words(n[4]) and all(_fb3(n[3] + 1, x, 49) for x in n[5])
+            return _undelim(n[3]) and bool(n[1]) and n[3] + 1 <= 9 and _words(n[4]) and all(_fb3(n[3] + 1, x, 49) for x in n[5])
         return n[3] <= 9 and ((n[3] >= 1 and all(_fb3(n[3], x, 49) for x in n[5])) or
                               (n[3] == 0 and (all(_fa(x) for x in n[5]) or all(_fv(x) for x in n[5]))))
     if k == 'call':
-        return _opt_ok(n[2]) and all(all(_fa(x) for x in a) for a in n[3])
+        return _opt_ok(n[2]) and all(all(_fa(x) for x in a) for a in n[3]) and _dargs_ok(n[3])
     if k == 'cond':
         return _test_ok(n[1]) and all(_f2(x) for x in n[2]) and (n[3] is None or all(_f2(x) for x in n[3]))
     if k == 'case':
@@ -628,9 +671,87 @@ def has_nested_def(prog):
     return inside(prog, False)
 
 
-def in_f2(prog):
-    """Spec/MacroPrint.in_F2 (= in_F3: since stage 4 the fragment includes nested definitions with ##k) on the Python side"""
-    return all(_f2(n) for n in prog)
+def in_f2(prog, table=None):
+    """Spec/MacroPrint.in_F2 (= in_F3: since stage 4 the fragment includes nested definitions with ##k) on the Python side,
+    under the delimiter assignment [table] (None: NoDelims)"""
+    TABLE[0] = table
+    try:
+        return all(_f2(n) for n in prog)
+    finally:
+        TABLE[0] = None
+
+
+DELIM_CHOICES = ['.', ',', ';', ':', '!', '.;', ',:', '!!']
+
+
+def gen_table(rng, prog=None):
+    """a delimiter assignment (MacroPrint.Delims as a table): {np: [delimiter after parameter 1..np]}; with a program, mostly for the
+    parameter counts of its \\def macros"""
+    counts = set(range(1, 10))
+    if prog is not None and rng.random() < 0.8:
+        counts = {n[3] for n in prog if n[0] == 'def' and n[4] is None and n[3] > 0} or counts
+    t = {}
+    for np in sorted(counts):
+        if rng.random() < 0.7:
+            row = [rng.choice(DELIM_CHOICES) if rng.random() < 0.5 else '' for _ in range(np)]
+            if any(row):
+                t[np] = row
+    return t
+
+
+def expandafter_ok(prog, table):
+    """the part of MacroPrint.gsafe about delimiters (checked along the evaluation there, statically here): every macro that is the
+    target of an \\expandafter has an undelimited parameter count in all its definitions"""
+    nps = {}
+    targets = set()
+
+    def walk(x):
+        if isinstance(x, list):
+            if x and x[0] == 'def' and len(x) > 5:
+                nps.setdefault(x[2], set()).add(x[3])
+            if x and x[0] == 'expandafter':
+                targets.add(x[1])
+            for y in x:
+                walk(y)
+    walk(prog)
+    TABLE[0] = table
+    try:
+        return all(_undelim(np) for a in targets for np in nps.get(a, ()))
+    finally:
+        TABLE[0] = None
+
+
+def table_wire(table):
+    return [[np, i + 1, [[12, [ord(ch)]] for ch in d]] for np, row in sorted(table.items()) for i, d in enumerate(row) if d]
+
+
+def fit_to_table(prog, table):
+    """make a generated program conform to printing by parameter count: in program text (top level, groups, branches) the argument
+    written for a delimited parameter becomes plain words (the other conditions of the fragment are only tested, never forced)"""
+    def words_of(a):
+        ws = [x for x in a if x[0] == 'word']
+        return ws
+    def fix(l):
+        for n in l:
+            k = n[0]
+            if k == 'call':
+                for i in range(len(n[3])):
+                    row = table.get(len(n[3]))
+                    if row and i < len(row) and row[i]:
+                        n[3][i] = words_of(n[3][i])
+            elif k == 'group':
+                fix(n[1])
+            elif k == 'cond':
+                fix(n[2])
+                if n[3] is not None:
+                    fix(n[3])
+            elif k == 'case':
+                for b in n[2]:
+                    fix(b)
+                if n[3] is not None:
+                    fix(n[3])
+    fix(prog)
+    return prog
 
 
 in_f3 = in_f2
